@@ -5,6 +5,8 @@ extern crate iceoryx2_bb_loggers;
 
 mod c03;
 mod c09;
+mod c10;
+mod c12;
 mod common;
 
 fn main() {
@@ -13,6 +15,8 @@ fn main() {
     let report = match args.sub.as_str() {
         "c09" => c09::run(&args),
         "c03" => c03::run(&args),
+        "c10" => c10::run(&args),
+        "c12" => c12::run(&args),
         "warmup" => return,
         other => {
             eprintln!("unknown sub command {:?}", other);
